@@ -39,6 +39,22 @@ def respCase (inp impl : String) : CaseOut :=
         | .value v => (s', nreq, out ++ [s!"value{v}"], tags ++ ["result.value"])
         | _ => (s', nreq, out ++ ["timeout"], tags ++ ["result.timeout"])
       else if op.startsWith "ids" then (s, nreq, out ++ ["dups=0"], tags ++ ["ids"])
+      else if op.startsWith "qi" then
+        -- request to a target that replies at once: request; reply (delivered); Result = that value; unregistered
+        let k := (rest op 2).toNat?.getD 0
+        -- (self-contained: run on a scratch state so that the harness' request numbering is undisturbed)
+        let (s1, o1) := step ({} : St) .request
+        match o1 with
+        | .requested id =>
+          let (s2, _) := step s1 (.reply id k)
+          let (_, o3) := step s2 (.result id true)
+          (s, nreq, out ++ [match o3 with | .value v => s!"value{v}" | _ => "timeout"], tags ++ ["inline-reply"])
+        | _ => (s, nreq, out ++ ["?"], tags)
+      else if op.startsWith "cc" then
+        -- n x m concurrent requests, each answered once in time: all correlated (C11.correlated), no timeouts
+        match (rest op 2).splitOn "x" with
+        | [a, b] => (s, nreq, out ++ [s!"ok={(a.toNat?.getD 0) * (b.toNat?.getD 0)} timeouts=0 crosstalk=0 dupid=0"], tags ++ ["concurrent"])
+        | _ => (s, nreq, out ++ ["bad-op"], tags)
       else (s, nreq, out ++ ["bad-op"], tags)
     let (_, _, out, tags) := ops.foldl stepOp ({}, 0, [], [])
     let model := String.intercalate ";" out
@@ -50,6 +66,7 @@ def respCase (inp impl : String) : CaseOut :=
         let got := implL.getD i "?"
         let why :=
           if got = "BLOCKED" then "a reply blocked its sender (C09: sending never blocks the caller)"
+          else if got.startsWith "ok=" then "concurrent requests: a reply was lost, timed out or reached the wrong requester"
           else if got.startsWith "dups=" then "two responses can draw the same id (cross-talk between concurrent requests)"
           else if got.startsWith "value" then "Result returned a value that was not the first reply to that very request"
           else "request/response protocol"
